@@ -18,6 +18,8 @@ func main() {
 		devRun(os.Args[2:])
 	case "exec":
 		devExec(os.Args[2:])
+	case "committrace":
+		devCommitTrace(os.Args[2:])
 	default:
 		if !dispatch(os.Args[1], os.Args[2:]) {
 			fmt.Fprintln(os.Stderr, "unknown command", os.Args[1])
